@@ -18,7 +18,7 @@ TRUSTED = ['harness/props/c09.py + Driver/Tax.lean', 'np.argsort(kind="stable") 
 ASSUMPTIONS = []
 
 
-def real_item(dists, N, gtax=None, forest=None):
+def real_item(dists, N, gtax=None, forest=None, strict=False):
 	import numpy as np
 	from gambit.query import get_result_item, QueryParams, QueryInput
 	n = len(dists)
@@ -29,7 +29,7 @@ def real_item(dists, N, gtax=None, forest=None):
 		parent, thr, report = forest
 	taxa = T.build_taxa(parent, thr, report)
 	genomes = T.build_genomes(taxa, gtax)
-	item = get_result_item(T.fake_db(genomes), QueryParams(report_closest=N), np.array(dists, dtype=np.float32), QueryInput('q'))
+	item = get_result_item(T.fake_db(genomes), QueryParams(report_closest=N, classify_strict=strict), np.array(dists, dtype=np.float32), QueryInput('q'))
 	return item, taxa, genomes
 
 
@@ -42,7 +42,7 @@ def check(ctx, case):
 	if 'parent' in case:
 		forest = (case['parent'], case['thr'], case['report'])
 	try:
-		item, taxa, genomes = real_item(dists, N, case.get('gtax'), forest)
+		item, taxa, genomes = real_item(dists, N, case.get('gtax'), forest, strict=bool(case.get('strict')))
 	except Exception as e:
 		return [], [f'get_result_item raised {exc_kind(e)}: {e}']
 	gix = T.idx_of(genomes)
@@ -61,6 +61,25 @@ def check(ctx, case):
 		for m, i in list(zip(item.closest_genomes, lst))[:5]:
 			mt = None if m.matched_taxon is None else tix[id(m.matched_taxon)]
 			lines.append(f'c03.match {ftok} {case["gtax"][i]} {ds2[i]} {opt(mt)}')
+	if case.get('export'):
+		# the exported CSV and JSON must name the same closest genome, and the JSON list must be the in-memory list
+		import io, json, csv as _csv
+		from gambit.query import QueryResults, QueryParams
+		from gambit.results import CSVResultsExporter, JSONResultsExporter
+		res = QueryResults(items=[item], params=QueryParams(report_closest=N))
+		b1, b2 = io.StringIO(newline=''), io.StringIO()
+		try:
+			CSVResultsExporter().export(b1, res)
+			JSONResultsExporter().export(b2, res)
+			row = list(_csv.reader(io.StringIO(b1.getvalue(), newline='')))[1]
+			jitem = json.loads(b2.getvalue())['items'][0]
+			jkeys = [m['genome']['key'] for m in jitem['closest_genomes']]
+			jl = [int(k[1:]) for k in jkeys]
+			lines.append(f'c09.closest {nats(ds_s)} {N} {nats(jl)} {cm}')
+			if jitem['closest_genomes'] and row[6] != jitem['closest_genomes'][0]['genome']['description']:
+				pf.append(f'CSV closest.description {row[6]!r} != JSON closest_genomes[0] {jitem["closest_genomes"][0]["genome"]["description"]!r}')
+		except Exception as e:
+			pf.append(f'export failed: {exc_kind(e)}: {e}')
 	k = min(N + 1, len(dists))
 	srt = sorted(float(x) for x in dists)[:k]
 	case['_nt'] = len(set(srt)) < len(srt)
@@ -79,16 +98,17 @@ def run(ctx):
 	for row in ([0.5, 0.25, 0.0, 0.0, 1.0], [1.0, 0.5, 0.25, 0.25, 0.25], [0.0] * 5, [0.25, 0.25, 0.0, 0.0, 0.0], [0.5, 0.5, 0.5, 0.25, 0.25, 0.25, 0.0, 0.0]):
 		for N in (1, 2, 3, 10):
 			sub({'dists': row, 'N': N}, 'corpus')
+			sub({'dists': row, 'N': N, 'strict': True, 'export': True}, 'corpus')
 	for j in range(ctx.q(3000, 40000)):
 		if not ctx.time_left(0.8):
 			break
 		r = rng.random()
-		n = rng.randint(1, 12) if r < 0.5 else (rng.randint(1, 80) if r < 0.9 else rng.randint(100, ctx.q(600, 3000)))
+		n = rng.randint(1, 12) if r < 0.5 else (rng.randint(1, 80) if r < 0.93 else rng.randint(100, ctx.q(300, 3000)))
 		pool = rng.sample(T.DIST_VALUES, rng.randint(1, 4))
 		dists = [rng.choice(pool) for _ in range(n)] if rng.random() < 0.8 else [rng.random() for _ in range(n)]
 		N = rng.choice([1, 2, 3, 5, 10, n, n + 1, n + 3, max(1, n - 1)])
-		case = {'dists': dists, 'N': N}
-		if rng.random() < 0.3 and n <= 80:
+		case = {'dists': dists, 'N': N, 'strict': rng.random() < 0.35, 'export': rng.random() < 0.35 and n <= 60}
+		if (rng.random() < 0.3 or case['strict']) and n <= 80:
 			nt = rng.randint(1, 8)
 			case.update(parent=T.rand_forest(rng, nt), thr=T.rand_thr(rng, nt), report=[1] * nt, gtax=[rng.randrange(nt) for _ in range(n)])
 		sub(case, 'random')
